@@ -24,7 +24,14 @@ _WORD0 = re.compile(r"^[A-Za-z0-9_\"'@:?]")
 
 def render(toks, variant):
     """variant 0: tokens separated by one space, file ends with newline;
-    variant 1: compact (space only between word-like tokens), no trailing newline."""
+    variant 1: compact (space only between word-like tokens), no trailing newline;
+    variant 2: natural spacing (`m(1, x)`, `x = [1]`, `a.b`), file ends with newline."""
+    if variant == 2:
+        s = render(toks, 0)
+        for a, b in ((" ( ", "("), ("( ", "("), (" )", ")"), (" , ", ", "), ("[ ", "["), (" ]", "]"), ("{ ", "{"),
+                     (" }", "}"), (" . ", "."), ("| ", "|"), (" |", "|"), ("* ", "*"), ("do|", "do |")):
+            s = s.replace(a, b)
+        return s
     if variant == 0:
         out = []
         for t in toks:
